@@ -156,7 +156,7 @@ func (l *layoutCtx) encoder(pkg, name string, variants []Variant, out func(r abs
 			}
 		}
 		if compared == 0 && len(problems) == 0 {
-			problems = append(problems, "undecided: no path produces output")
+			problems = append(problems, "no path of this in-domain variant produces output: a value the specification allows is refused or never written")
 		}
 		facts := map[string]interface{}{"paths": len(res), "compared_paths": compared, "expected": abs.SpecString(v.Spec)}
 		if len(problems) == 0 {
